@@ -94,7 +94,7 @@ def op_kind_at(ops, at):
     return "teardown" if at >= len(ops) else "?"
 
 
-def run_proc(cmd, timeout=900):
+def run_proc(cmd, timeout=3600):
     try:
         p = subprocess.run(cmd, stdout=subprocess.PIPE, stderr=subprocess.PIPE, timeout=timeout)
         return p.returncode, p.stdout.decode("utf-8", "replace"), p.stderr.decode("utf-8", "replace")
@@ -274,7 +274,9 @@ def run_stage(binary, flavour, universes, mode, runs_per_universe, seed, args, c
     tasks = []
     if chunk is None:
         total = runs_per_universe * len(universes)
-        chunk = max(1, min(runs_per_universe, total // (NCPU * 3) + 1))
+        # tasks of at most 20000 runs: a task must finish well inside the per-process timeout even
+        # in the slow (large-size) universes and on a loaded machine
+        chunk = max(1, min(runs_per_universe, total // (NCPU * 3) + 1, 20000))
     for u in universes:
         lo = 0
         while lo < runs_per_universe:
